@@ -188,6 +188,10 @@ impl<C: Ctr> Sut for CmsSut<C> {
                     Err(m) => {
                         rec["panic"] = json!(m);
                         rec["margs"] = json!({"pv": self.u.pv[ki], "ret": 0});
+                        // the refused add must not have taken anything away from what was counted before it
+                        if let Ok(q) = guarded(|| self.q_of(&self.s)) {
+                            rec["q_panic"] = json!(q);
+                        }
                         self.dead = true;
                         "panic".into()
                     }
@@ -234,6 +238,9 @@ impl<C: Ctr> Sut for CmsSut<C> {
                     }
                     Err(m) => {
                         rec["panic"] = json!(m);
+                        if let Ok(q) = guarded(|| self.q_of(&self.s)) {
+                            rec["q_panic"] = json!(q);
+                        }
                         self.dead = true;
                         "panic".into()
                     }
